@@ -119,6 +119,10 @@ def ser_view(kind, obj):
     claimed (SSC chart without note data)."""
     from msdparser import parse_msd
     if kind == "sscchart" and "NOTES" not in obj and "NOTES2" not in obj:
+        try:
+            str(obj)            # (not claimed - but whatever this attempt does must not leak into later serializations)
+        except Exception:  # noqa
+            pass
         return []
     try:
         text = str(obj)
@@ -161,6 +165,16 @@ def cmp_views(kind, obj, items, rng):
         sw = [dict(e) for e in items]
         sw[0], sw[1] = sw[1], sw[0]
         out.append({"other": sw, "eq": bool(obj == rebuild(kind, sw))})
+    if kind != "smchart":
+        # a twin with one key MORE and one with one key LESS, compared in both directions
+        more = [dict(e) for e in items] + [{"k": "ZZEXTRA", "v": "x"}]
+        out.append({"other": more, "eq": bool(obj == rebuild(kind, more))})
+        out.append({"other": more, "eq": bool(rebuild(kind, more) == obj)})
+        if items:
+            j = rng.randrange(len(items))
+            less = [dict(e) for i, e in enumerate(items) if i != j]
+            out.append({"other": less, "eq": bool(obj == rebuild(kind, less))})
+            out.append({"other": less, "eq": bool(rebuild(kind, less) == obj)})
     return out
 
 
